@@ -21,7 +21,7 @@ T = {
     "C03": ("exploration", "offline exactly-once / conservation checker over the event log of each parallel stage (leaf visits, transforms, multi-TAN, multi-WCS) with slow-feeder, slow-worker, late-start, late-check, stall and burst delay profiles, statement-boundary delays, refused forks and killed workers, compared with the serial run",
             "Each parallel stage is run on generated item sets with 2-32 workers under instrumented multiprocessing; the log must show every item processed exactly once by exactly one worker, all workers exited before return, and the same set as serial mode.",
             "Held on observed schedules only. Trusts the event log ordering and the logging PyramidIO.", "3/C03", "instr_mp+evlog"),
-    "C04": ("exploration", "independent reference model of the TOAST subdivision (unit-vector octahedron refinement) compared with every tile from all four construction routes; exhaustive to a depth bound, sampled beyond",
+    "C04": ("exploration", "independent reference model of the TOAST subdivision (unit-vector octahedron refinement) compared with every tile from all four construction routes and with the tiles Pyramid objects hand to leaf callbacks; exhaustive to a depth bound, sampled beyond",
             "All tiles to a depth bound in both coordinate systems via every construction route are compared with a from-the-documentation reference; nesting, shared edges, areas and layout anchors are asserted on the real outputs.",
             "Exhaustive only to the stated depth; deeper positions sampled. Tolerance 1e-12 on unit vectors.", "3/C04", "ref-oracles"),
     "C05": ("exploration", "reference-model oracle on toast_tile_get_coords: full 256x256 grids compared with an independent vectorised refinement and with toasty's own Python subdivision eight levels deeper; ASan/UBSan lane on the rebuilt extension as diagnostics",
@@ -39,16 +39,16 @@ T = {
     "C09": ("exploration", "reference oracle: multi-TAN tiling of generated decompositions vs study tiling of the pasted mosaic, across orders, parities, grid rotations and worker counts, with instrumented multiprocessing, statement-boundary delays on a dilated lock clock and a killed worker",
             "Random mosaics are decomposed into overlapping/NaN-bordered FITS inputs, tiled by MultiTanProcessor (API and CLI) and compared tile by tile and field by field with the mosaic tiled as one image.",
             "Held on generated mosaics. Overlaps agree by construction.", "3/C09", "ref-oracles"),
-    "C10": ("exploration", "history + executable model: every concurrent update logs the set of uniquely tagged contributions it observed; offline serial-chain checker (linearizability of read-modify-write) plus torn-read detection; statement-boundary delays, dilated and real long holds, the real multi-image stages with one late worker",
+    "C10": ("exploration", "history + executable model: every concurrent update logs the set of uniquely tagged contributions it observed; offline serial-chain checker (linearizability of read-modify-write) plus torn-read detection; statement-boundary delays, dilated and real long holds, the real multi-image stages with one late worker, updaters that differ in environment and in how they spell the pyramid path",
             "2-8 real processes update one tile through update_image with delays inside the critical section; the recorded observations must form one serial chain and the final tile must contain every contribution.",
             "Held on observed interleavings only.", "3/C10", "instr_mp+evlog"),
-    "C11": ("exploration", "reference oracle with identity maps: the returned value names the cell read, compared with the documented layout in float64 with either-adjacent-cell tolerance at boundaries; coexisting samplers, map memory layouts, calls from concurrent threads",
+    "C11": ("exploration", "reference oracle with identity maps: the returned value names the cell read, compared with the documented layout in float64 with either-adjacent-cell tolerance at boundaries; coexisting samplers, map memory layouts, calls from concurrent threads, sparse disk-backed maps beyond 2^31 pixels",
             "All sampler variants on maps of many shapes incl. 1-pixel axes are driven with random, boundary, pole, periodic and real TOAST grid inputs.",
             "Ecliptic variant checked for layout-independent clauses only. Galactic oracle is astropy via SkyCoord.", "3/C11", "ref-oracles"),
     "C12": ("exploration", "reference oracle: containment by signed great-circle distance to the reference tile's edges, nesting, periodicity, nearest-pixel distance; uniform, polar and structure-point generators, tracks across tile edges, nanoradian pairs at depth 24, lookups from concurrent threads",
             "Point lookups in both coordinate systems at depths 0-12 are checked against the independent TOAST reference.",
             "Tolerance 1e-9 rad on shared edges.", "3/C12", "ref-oracles"),
-    "C13": ("exploration", "reference quadtree model vs generate_pos/pos algebra and the three counters vs callbacks actually observed in leaf visits and walks; exhaustive for small depths",
+    "C13": ("exploration", "reference quadtree model vs generate_pos/pos algebra and the three counters vs callbacks actually observed in leaf visits and walks (also in interpreters started with python -O and on re-depthed objects); exhaustive for small depths",
             "Position algebra and counts are compared with first-principles computations on all kinds of pyramids.",
             "Exhaustive over ancestor-closed filters to depth 2 (thorough).", "3/C13", "ref-oracles"),
     "C14": ("exploration", "reference oracle: DATAMIN/DATAMAX read with astropy from every tile vs min/max of the generator's leaf arrays beneath it; WTML DataMin/DataMax vs root",
@@ -60,16 +60,16 @@ T = {
     "C16": ("exploration", "reference oracle: astropy pix2world before vs after the flip for every pixel; idempotence of ensure_negative_parity; groups of live images, one WCS on several heights, foreign pixel_shape, non-default poles",
             "Random linear celestial WCS (CD and PC forms, rotation, skew, both parities) are flipped by the real code and compared on the sky.",
             "astropy.wcs is the oracle.", "3/C16", "ref-oracles"),
-    "C17": ("exploration", "independent template expansion vs files on disk for every workflow emitting index_rel.wtml; call histories on one output directory for tile_fits",
+    "C17": ("exploration", "independent template expansion vs files on disk for every workflow emitting index_rel.wtml; call histories (incl. failed calls) on one output directory for tile_fits; every advertised format",
             "Each workflow is run for real and its WTML parsed with xml.etree; expanded URLs must equal the written tile set.",
             "HiPS and network sources not covered.", "3/C17", "ref-oracles"),
     "C18": ("fault_enumeration", "fault enumeration over the put_item history: every directory order x every fault point (before/during/after each transfer, before rename) as exception, transient error, real SIGINT and real crash, faults inside the real put_item, with a store-invariant oracle",
             "publish() is run with os.listdir wrapped to return every permutation and a fault injected at every point; the store invariant and the recovery run are checked after each.",
             "Local store only; crashes emulated by os._exit in a forked child.", "3/C18", "faultpoints"),
-    "C19": ("fault_enumeration", "fault enumeration: an exception (incl. unpicklable), a signal death or an I/O failpoint injected at each item of each parallel stage; outcome classified by the event log (raised / returned / stuck-state model / watchdog)",
+    "C19": ("fault_enumeration", "fault enumeration: an exception (incl. unpicklable), a signal death or an I/O failpoint injected at each item of each parallel stage; outcome classified by the event log (raised / returned / stuck-state model / watchdog); fresh interpreters with non-fork start methods",
             "Each stage x worker count x item gets one injected failure; only a visible failure to the caller satisfies the property.",
             "Stuck state decided by protocol state, not time.", "3/C19", "faultpoints"),
-    "C20": ("exploration", "reference oracle with marker-valued multi-extension FITS files: shape, marker and CRPIX identify (file, HDU, WCS key) actually loaded",
+    "C20": ("exploration", "reference oracle with marker-valued multi-extension FITS files: shape, marker and CRPIX identify (file, HDU, WCS key) actually loaded; selection objects shared between collections and calls from concurrent threads",
             "Generated collections and selections are loaded through every entry point and each item is identified.",
             "Held on generated collections.", "3/C20", "ref-oracles"),
 }
